@@ -40,7 +40,9 @@ def counted_registers(prog):
     into = {"E": set(), "B": set()}          # (container register, content register) pairs still in step
     for op in prog:
         k = op[0]
-        if k in COUNTING:
+        if k in COUNTING and k not in FORGING[:5]:
+            continue          # points / validity say nothing about marker windows: only a forge of the object counts
+        if k in FORGING[:5]:
             ok[k[1]].add(op[1])
             if k[1] == "S":
                 for (q, e) in into["E"]:
@@ -57,6 +59,8 @@ def counted_registers(prog):
         if kind == "T":
             ok["S"].discard(op[-1])
             into["E"] = {p for p in into["E"] if p[0] != op[-1]}
+            if k in ("TVarying", "TLinear"):
+                into["E"].add((op[-1], op[1]))          # every position of the result is a copy of the base element
             continue
         target = op[-1] if k in ("BCopy", "BFromJson", "BAdd", "ECopy", "EFromJson", "SCopy", "SFromJson", "SAdd") else op[1]
         ok[kind].discard(target)
@@ -112,11 +116,15 @@ class Shape:
                     if len(b.get("durs", [])) > i:
                         del b["durs"][i]
             elif k in ("BCopy", "BFromJson"):
-                src = self.B.get(a[0], {"names": [], "fns": []})
-                self.B[a[1]] = {"names": list(src["names"]), "fns": list(src["fns"])}
+                import copy as _copy
+                self.B[a[1]] = _copy.deepcopy(self.B.get(a[0], {"names": [], "fns": []}))
+                if k == "BFromJson":
+                    self.B[a[1]].pop("sr", None)          # the sample rate is not part of a description
             elif k == "BAdd":
                 x, y = self.B.get(a[0], {"names": [], "fns": []}), self.B.get(a[1], {"names": [], "fns": []})
-                self.B[a[2]] = {"names": x["names"] + y["names"], "fns": x["fns"] + y["fns"]}
+                self.B[a[2]] = {"names": x["names"] + y["names"], "fns": x["fns"] + y["fns"],
+                                "durs": list(x.get("durs", [])) + list(y.get("durs", [])), "sr": x.get("sr"),
+                                "marked": bool(x.get("marked") or y.get("marked"))}
             elif k == "BSetSR":
                 self.B.setdefault(a[0], {"names": [], "fns": []})
                 if isinstance(a[1], (int, float)) and a[1] > 0:
@@ -199,6 +207,9 @@ def unique_names(bases):
 def pick_name(rng, b):
     """Mostly a segment name that exists (by the naming rule applied to what the program inserted), sometimes not."""
     names = unique_names((b or {}).get("names", []))
+    fns = (b or {}).get("fns", [])
+    if "waituntil" in fns and fns.index("waituntil") > 0 and len(fns) == len(names) and rng.random() < 0.4:
+        return rng.choice(names[:fns.index("waituntil")])          # a segment in front of a wait: the wait must absorb the edit
     if names and rng.random() < 0.8:
         return rng.choice(names)
     return rng.choice(names + ["ramp", "nosuchsegment"] + [n + "2" for n in names])
@@ -250,6 +261,18 @@ def durs_off_ties(durs, SR):
             if abs((x - (x.numerator // x.denominator)) - Fraction(1, 2)) < Fraction(1, 5) or x < Fraction(9, 5):
                 return False
     return True
+
+
+def delay_safe(rng, SR, ks=(2, 3, 8, 4, 20)):
+    """A channel delay of a few whole samples at SR that is also off every rounding tie at the other rates of the
+    program (raw arrays are padded at their own rate)."""
+    ks = list(ks)
+    rng.shuffle(ks)
+    for k in ks:
+        d = float(Fraction(k) / Fraction(SR))
+        if off_ties(d):
+            return d
+    return 0
 
 
 def dur_value(rng, SR):
@@ -351,7 +374,7 @@ def tail(rng, sh, extra_obs, first=False, force=None, base_obs=()):
                 # a channel delay declared and the sequence forged / exported before the edit (what is remembered from a
                 # delayed forge must not survive the edit)
                 b0 = sh.bp_of(s, op[2], op[3])
-                ops += [("SSetDelay", s, op[3], float(Fraction(rng.choice([2, 3, 8])) / Fraction(own_sr(b0, some_sr(rng, sh))))),
+                ops += [("SSetDelay", s, op[3], delay_safe(rng, own_sr(b0, some_sr(rng, sh)))),
                         ("OSForge", s, True, True, False), rng.choice([("OSSeqx", s, False), ("OSAwg", s, ("slice", None, None, None)), ("OSDescr", s)])]
             ops.append(op)
             # the first query after the edit is an export when the program has one (a query such as `channels` or `forge`
@@ -448,7 +471,7 @@ def tail(rng, sh, extra_obs, first=False, force=None, base_obs=()):
             for c in chs:
                 ops += [("SSetAmp", q, c, 4), ("SSetOff", q, c, 0)]
                 if rng.random() < 0.5:
-                    ops.append(("SSetDelay", q, c, float(Fraction(rng.choice([2, 3, 8])) / Fraction(SR))))
+                    ops.append(("SSetDelay", q, c, delay_safe(rng, SR)))
                 if rng.random() < 0.3:
                     ops.append(("SSetFilter", q, c, rng.choice(["HP", "LP"]), 1, SR * 0.2, None))
             for op in ops[-(3 + 4 * len(chs)):]:
@@ -522,7 +545,7 @@ def tail(rng, sh, extra_obs, first=False, force=None, base_obs=()):
                 ops.append(("SAddSub", s, rng.choice([pos, pos, len(poss) + 1]), t))
             elif k == "set_absent":
                 absent = rng.choice([98, "zz"])
-                ops.append(("SSetDelay", s, absent, float(Fraction(rng.choice([300000, 400000])) / Fraction(SR))))
+                ops.append(("SSetDelay", s, absent, delay_safe(rng, SR, ks=(300000, 400000, 300002))))
                 if rng.random() < 0.5:
                     ops.append(rng.choice([("SSetAmp", s, absent, 1), ("SSetOff", s, absent, 0.125)]))
                 extra_obs += [("OSForge", s, True, True, False), ("OSAwg", s, ("slice", None, None, None)), ("OSSeqx", s, False)]
@@ -544,7 +567,7 @@ def tail(rng, sh, extra_obs, first=False, force=None, base_obs=()):
                 exps = [("OSSeqx", s, True), ("OSSeqx", s, False), ("OSAwg", s, ("slice", None, None, None))]
                 rng.shuffle(exps)
                 ops += [("SSetAmp", s, c, 0.0009765625)] + exps + [("SSetAmp", s, c, old),
-                        ("SSetDelay", s, c, float(Fraction(rng.choice([2, 3, 8, 20])) / Fraction(SR)))]
+                        ("SSetDelay", s, c, delay_safe(rng, SR))]
                 extra_obs += [("OSSeqx", s, False), ("OSSeqx", s, True), ("OSForge", s, True, True, False)]
                 if rng.random() < 0.5:
                     # ... and the sequence made inconsistent afterwards (a further channel at one position only): the gate
@@ -580,7 +603,7 @@ def tail(rng, sh, extra_obs, first=False, force=None, base_obs=()):
                     if len(chs2) >= 2 and all(v[0] == "bp" and v[2].get("reg") is not None and
                                                sh.B.get(v[2]["reg"], {}).get("names") == v[2]["names"] for v in chs2):
                         e2 = sh.fresh("E")
-                        ops += [("SSetDelay", s, chs2[0][1], float(Fraction(rng.choice([2, 3, 8])) / Fraction(own_sr(chs2[0][2], SR)))),
+                        ops += [("SSetDelay", s, chs2[0][1], delay_safe(rng, own_sr(chs2[0][2], SR))),
                                 ("OSForge", s, True, True, False), ("ENew", e2)]
                         for v in reversed(chs2):
                             ops.append(("EAddBp", e2, v[1], v[2]["reg"]))
@@ -588,6 +611,9 @@ def tail(rng, sh, extra_obs, first=False, force=None, base_obs=()):
                         extra_obs += [("OSForge", s, True, True, False), ("OSAwg", s, ("slice", None, None, None)), ("OSChannels", s)]
             elif k == "handle_new_array":
                 # a raw-array channel given new samples of the same length through the handle, between two exports
+                arrs = [v for v in ent[1]["chans"].values() if v[0] == "arr"] if ent[0] == "el" else []
+                if arrs:
+                    c, b = arrs[0][1], arrs[0][2]
                 if b is not None and b.get("n") and b["n"] <= 6000:
                     n = b["n"]
                     w = [(rng.choice([0.125, -0.125, 0.0625]), n // 2), (rng.choice([0.25, 0, -0.0625]), n - n // 2)]
@@ -661,13 +687,13 @@ def tail(rng, sh, extra_obs, first=False, force=None, base_obs=()):
                 if names and len((b or {}).get("durs", [])) == len(names):
                     i = rng.randrange(len(names))
                     if isinstance(b["durs"][i], (int, float)):
-                        ops += [("SSetDelay", s, c, float(Fraction(rng.choice([2, 3, 8])) / Fraction(own_sr(b, SR)))),
+                        ops += [("SSetDelay", s, c, delay_safe(rng, own_sr(b, SR))),
                                 ("SElemChangeDur", s, pos, c, names[i], float(Fraction(5, 4) / Fraction(own_sr(b, SR))), False),
                                 ("OSForge", s, True, True, False), ("OSDescr", s),
                                 ("SElemChangeDur", s, pos, c, names[i], b["durs"][i], False)]
                         extra_obs += [("OSForge", s, True, True, False), ("OSPoints", s)]
             elif k == "delay":
-                ops.append(("SSetDelay", s, c, float(Fraction(rng.choice([0, 2, 3, 8, 20])) / Fraction(SR))))
+                ops.append(("SSetDelay", s, c, rng.choice([0, delay_safe(rng, SR)])))
                 extra_obs += [("OSSeqx", s, rng.random() < 0.5), ("OSForge", s, True, True, False)]
         elif k == "el_overwrite_sweep":
             # the element queried, then every channel replaced by a blueprint at another sample rate (the element stays
@@ -804,7 +830,8 @@ def make(rng, cases, n, max_prog=90):
     if not pool:
         return out
     # the commonest stateful pattern (observe, edit through the handle, observe again) gets several slots per cycle
-    kinds = [(k, 0) for k in ALL_KINDS] + [("valid_handle", i) for i in (1, 2, 3, 4, 5)] + [("failed_export", 1), ("failed_forge", 1)]
+    kinds = [(k, 0) for k in ALL_KINDS] + [("valid_handle", i) for i in (1, 2, 3, 4, 5)] + [("failed_export", 1), ("failed_forge", 1), ("reorder_element", 1), ("handle_new_array", 1),
+                                                                                            ("failing_sweep", 1), ("readd_after_sr", 1)]
     rng.shuffle(kinds)
     used = {k: 0 for k in kinds}
     tries = 0
@@ -902,6 +929,7 @@ def make(rng, cases, n, max_prog=90):
                 rng.shuffle(ob)          # the order of the queries after an edit matters to anything that is invalidated by a query
             new += t + ob + [o for o in descr[:12] if o not in obs]
         if not added:
+            used[slot] -= 1          # this program had nothing the kind could act on: the slot is tried again elsewhere
             continue
         out.append({"prog": new, "kind": "followup", "followup": True, "base_kind": c.get("kind"), "n_base": len(prog),
                     "first_kind": want})
